@@ -30,10 +30,11 @@ type StreamObj struct {
 	cuts   int
 	// blocking: one direction of an in-process connection (verifapi.NewPipe): a read with nothing
 	// pending waits for a write or Close; one message per read (read-ahead is the loop-back stream's subject)
-	blocking bool
-	sizes    []*Term       // symbolic byte length of each message (1..4096), created on demand
-	limiters []*readerWrap // io.LimitReader wrappers decoders read this stream through
-	mistyped map[int]bool  // message i is a complete JSON value whose "jsonrpc" member has the wrong type (verifapi.WriteMistyped)
+	blocking  bool
+	sizes     []*Term       // symbolic byte length of each message (1..4096), created on demand
+	limiters  []*readerWrap // io.LimitReader wrappers decoders read this stream through
+	frameEnds []int         // gobwas frame transport: message index at which each sent frame ends
+	mistyped  map[int]bool  // message i is a complete JSON value whose "jsonrpc" member has the wrong type (verifapi.WriteMistyped)
 }
 
 func (s *StreamObj) implements(it *types.Interface) bool { return true }
